@@ -153,6 +153,29 @@ def build(carrier, name, ds):
         for n in names:
             p.append(Frame.image_frame("Pictures/x.png", name=n, size=("1cm", "1cm"), anchor_type="as-char"))
         one("get_frame(name=)", lambda d: d.body.get_frame(name=name), "draw:name")
+    elif carrier == "frame_nested":
+        # a titled image frame inside the text box of another titled frame: name, title and description filters look at
+        # the frame's own children only (titles are plain words here: the title filter is a regex search by documentation)
+        for i, n in enumerate(names):
+            inner = Frame.image_frame("Pictures/x.png", name=n, size=("1cm", "1cm"), anchor_type="as-char")
+            inner.svg_title = f"Tq{i}q"
+            inner.svg_description = f"Dq{i}q"
+            holder = Paragraph("caption ")
+            holder.append(inner)
+            outer = Frame.text_frame([holder], name="outer" + n, size=("5cm", "3cm"), anchor_type="paragraph")
+            outer.svg_title = f"Uq{i}q"
+            outer.svg_description = f"Eq{i}q"
+            p = Paragraph("")
+            p.append(outer)
+            body.append(p)
+        k = len(names) - 1
+        one("get_frame(name=)", lambda d: d.body.get_frame(name=name), "draw:name")
+        one("get_frame(title=)", lambda d: d.body.get_frame(title=f"Tq{k}q"), "draw:name")
+        one("get_frame(description=)", lambda d: d.body.get_frame(description=f"Dq{k}q"), "draw:name")
+        one("get_frame(name=,title=)", lambda d: d.body.get_frame(name=name, title=f"Tq{k}q"), "draw:name")
+        one("get_frames(title=)", lambda d: d.body.get_frames(title=f"Tq{k}q"), "draw:name")
+        one("get_frame(title=outer)", lambda d: d.body.get_frame(title=f"Uq{k}q"), "$outer")
+        one("get_frames(description=outer)", lambda d: d.body.get_frames(description=f"Eq{k}q"), "$outer")
     elif carrier == "draw_page":
         body.clear()
         for n in names:
@@ -226,7 +249,7 @@ def build(carrier, name, ds):
     return doc, checks
 
 
-CARRIERS = ["table", "table_doc", "named_range", "named_range_table", "style", "style_auto", "bookmark", "bookmark_api", "refmark", "frame", "draw_page", "variable",
+CARRIERS = ["table", "table_doc", "frame_nested", "named_range", "named_range_table", "style", "style_auto", "bookmark", "bookmark_api", "refmark", "frame", "draw_page", "variable",
             "user_field", "note", "annotation", "link", "section", "change", "manifest", "meta"]
 
 
@@ -285,6 +308,11 @@ def run_case(case, ctx):
                 continue
             if label == "referenced_text":
                 ctx.check(got == "y", ("C14", carrier, "wrong-object", label), f"referenced_text of {name + 'r'!r} = {got!r} ({phase})", case)
+                continue
+            if qn == "$outer":
+                ids = [attr(g, "draw:name") for g in (got if isinstance(got, list) else [got])]
+                ctx.check(ids == ["outer" + name], ("C14", carrier, "wrong-object", label),
+                          f"{label} returned frames {ids!r}, the frame carrying that title/description is {'outer' + name!r} ({phase})", case)
                 continue
             if isinstance(got, list) and qn == "$table_name":
                 ids = [g.table_name for g in got]
